@@ -80,7 +80,14 @@ pub fn total(case: &J) -> R<J> {
     let sep = case.get("sep").and_then(|s| s.as_str()).unwrap_or(" ");
     let src = match case.get("src").and_then(|s| s.as_str()) {
         Some(s) => s.to_string(),
-        None => join_tokens(&case["tokens"], sep)?,
+        None => {
+            // "trail": text appended after the last token (e.g. a final line terminator)
+            let mut t = join_tokens(&case["tokens"], sep)?;
+            if let Some(tr) = case.get("trail").and_then(|s| s.as_str()) {
+                t.push_str(tr);
+            }
+            t
+        }
     };
     let entry = case["entry"].as_str().unwrap_or("program");
     let mut calls: Vec<J> = vec![];
